@@ -29,6 +29,8 @@ func newInterpreter(sh *shared, id int) *interpreter {
 		inited:  map[*ssa.Package]bool{},
 		id:      id,
 		tb:      newTermTable(),
+
+		lenSigned: true,
 	}
 	rt := sh.prog.ImportedPackage("runtime")
 	if rt == nil {
